@@ -490,7 +490,7 @@ func (d *dataWorld) opSelect(tp *simkit.Tape, stats map[string]int) {
 	rule := d.rule
 	cond := d.condition(tp, 3)
 	t := rule.table
-	pickAhead := tp.Choose(18)
+	pickAhead := tp.Choose(21)
 	if pickAhead >= 13 {
 		cond = d.qualified(tp, 2) // every column carries its table: the statement names two tables with the same columns
 	}
@@ -504,6 +504,9 @@ func (d *dataWorld) opSelect(tp *simkit.Tape, stats map[string]int) {
 	}
 	if pick == 3 && simkit.Params["partition"] == "strict" {
 		pick = 6
+	}
+	if pick >= 18 && pick <= 20 && simkit.Params["partition"] == "strict" {
+		pick = 8 // (known findings C02-F3 and C02-F4)
 	}
 	switch pick {
 	case 0, 1:
@@ -540,6 +543,21 @@ func (d *dataWorld) opSelect(tp *simkit.Tape, stats map[string]int) {
 		d1, d2 := tp.Chance(1, 2), tp.Chance(1, 2)
 		sql = fmt.Sprintf("select g, v, id from %s where %s order by g %s, v %s", t, cond, map[bool]string{true: "desc", false: "asc"}[d1], map[bool]string{true: "desc", false: "asc"}[d2])
 		ordered, desc = 2, []bool{d1, d2}
+	case 18:
+		shape = "order-by-position"
+		dsc := tp.Chance(1, 2)
+		sql = fmt.Sprintf("select v, id, name from %s where %s order by 1%s, 2", t, cond, map[bool]string{true: " desc", false: ""}[dsc])
+		ordered, desc = 2, []bool{dsc, false}
+	case 19, 20:
+		// groups ordered by an aggregate: the order exists only after the per-shard groups were merged
+		shape = "group-by-order-by-aggregate"
+		dsc := tp.Chance(1, 2)
+		sql = fmt.Sprintf("select count(*), g from %s where %s group by g order by count(*)%s, g", t, cond, map[bool]string{true: " desc", false: ""}[dsc])
+		ordered, desc = 2, []bool{dsc, false}
+		if pick == 20 {
+			shape = "group-by-order-by-aggregate-limit"
+			sql += fmt.Sprintf(" limit %d", tp.Range(1, 2))
+		}
 	case 15:
 		// the ORDER BY column carries its table (or database and table): the field the proxy adds for merging must be written for each sub-table
 		shape = "order-by-qualified-column"
@@ -660,6 +678,7 @@ func (d *dataWorld) opSelect(tp *simkit.Tape, stats map[string]int) {
 			if strings.HasPrefix(shape, "aggregates") && len(o.received) == 0 && len(got) == 0 && len(want) == 1 {
 				d.finding = "C02-F2"
 			}
+			d.orderFinding(shape, o)
 			d.fail("C02-result-differs-from-single-database", "%q (rule %s): the proxy returned %d rows %v; one database holding all shards returns %d rows %v; backends received %q", sql, rule.typ, len(got), clip(got), len(want), clip(want), o.recvSQL)
 			return
 		}
@@ -669,11 +688,13 @@ func (d *dataWorld) opSelect(tp *simkit.Tape, stats map[string]int) {
 		keyOf := func(canon string) string { return strings.Join(strings.SplitN(canon, ",", ordered+1)[:ordered], ",") }
 		_ = desc
 		if len(got) != len(want) {
+			d.orderFinding(shape, o)
 			d.fail("C02-result-differs-from-single-database", "%q: %d rows, the reference has %d: %v vs %v", sql, len(got), len(want), clip(got), clip(want))
 			return
 		}
 		for i := range got {
 			if keyOf(got[i]) != keyOf(want[i]) {
+				d.orderFinding(shape, o)
 				d.fail("C02-result-order", "%q: row %d has ORDER BY key %s, one database returns key %s there; proxy rows %v, reference rows %v", sql, i, keyOf(got[i]), keyOf(want[i]), clip(got), clip(want))
 				return
 			}
@@ -692,6 +713,7 @@ func (d *dataWorld) opSelect(tp *simkit.Tape, stats map[string]int) {
 			}
 			for _, g := range got {
 				if avail[g] == 0 {
+					d.orderFinding(shape, o)
 					d.fail("C02-result-differs-from-single-database", "%q: the proxy returned row %s, which one database holding all shards does not return (or returns less often); proxy rows %v, reference rows %v", sql, g, clip(got), clip(want))
 					return
 				}
@@ -701,6 +723,19 @@ func (d *dataWorld) opSelect(tp *simkit.Tape, stats map[string]int) {
 	}
 	stats["checked"]++
 	stats["result-compared"]++
+}
+
+// orderFinding names the known finding whose predicate a violation about to be reported satisfies.
+func (d *dataWorld) orderFinding(shape string, o *opResult) {
+	if len(o.received) < 2 {
+		return
+	}
+	switch {
+	case shape == "order-by-position":
+		d.finding = "C02-F3"
+	case strings.HasPrefix(shape, "group-by-order-by-aggregate"):
+		d.finding = "C02-F4"
+	}
 }
 
 func clip(s []string) []string {
